@@ -56,3 +56,28 @@ def collect_mt(o, pid, tier):
         o.finding(kind='mt', case=ev.get('case'), ft=ev.get('ft'), j=ev.get('j'), res=str(ev.get('res'))[:80], show=ev.get('show'), event=ev,
                   signature='mt:%s:%s:%s' % (ev.get('case'), ev.get('ft'), ev.get('j')))
     o.samples.append({'kind': 'Marsaglia-Tsang: measured acceptance prefix', 'event': json.loads(lines[0])})
+
+
+def collect_cheng(o, pid, tier):
+    """Cheng BB / BC kernels behind Beta<f64>, pointwise: at the anchors of spec/ChengTable.tla (14 parameter pairs incl. both orders, a = b, min = 1, min < 1 < max;
+    first uniform u1 = j/16) the value returned is the documented function of u1 and the accepting second uniform words are a prefix of the relative length the
+    documented tests give - the density ratio that makes the method exact (Beta<f32> has the exact law check)."""
+    wd = workdir(pid, 'traces')
+    tr = wd / 'cheng.ndjson'
+    r = tlc('MCCheng', 'MCCheng.cfg', pid, 'cheng_cases', workers=1, timeout=1200, heap='2g', pipe_to=[str(RDV), 'btpe-drive', '--out', str(tr)])
+    require_ok(r, 'MCCheng')
+    s = json.loads(r.consumer_out.strip().splitlines()[-1])
+    if s['events'] < 120:
+        raise ToolError('btpe-drive (Cheng): too few events: %s' % s)
+    rr = tlc('TraceBtpe', 'TraceBtpe.cfg', pid, 'cheng_trace', trace_mode=True, env={'TRACE': tr}, timeout=1200, heap='4g')
+    require_ok(rr, 'TraceBtpe (Cheng)')
+    if rr.rejected or rr.violated:
+        raise ToolError('cheng trace not consumed: %s' % (rr.rejected or rr.violated))
+    o.add_tlc(rr, 'TraceBtpe: %d measured Cheng BB/BC acceptance prefixes at the anchors of ChengTable (Beta<f64>)' % s['events'])
+    lines = tr.read_text().splitlines()
+    o.traces += len(lines)
+    o.extra['cheng_drive'] = s
+    for (ln, ev) in parse_bad(rr.out):
+        o.finding(kind='cheng', case=ev.get('case'), i=ev.get('i'), res=str(ev.get('res'))[:80], show=ev.get('show'), event=ev,
+                  signature='cheng:%s:%s' % (ev.get('case'), ev.get('i')))
+    o.samples.append({'kind': 'Cheng BB/BC: measured acceptance prefix', 'event': json.loads(lines[0])})
